@@ -14,6 +14,6 @@ RULE = ("Generated tables (1-8 initial buckets, max 4-16, mmap backend max 16 or
 ASSUMPTIONS = G.E1_ASSUMPTIONS + ["bounded: <=4 threads, <=7 ops per thread, <=28 point operations per history, <=64 nodes",
                                   "hooks: MIN_PARTITION_PER_THREAD_ORDER=1, COUNT_COMMIT_ORDER=1 so partitioned and counter-driven resizes occur on small tables"]
 EXAMPLES = {"quick": 150, "thorough": 3000}
-example = L.make_example(["lin", "lin", "lin", "shrink"])
+example = L.make_example(["lin", "lin", "lin", "shrink"], faults=("pthread_create_eagain",))
 judge = L.make_judge(lambda text, res: G.flag(res, 0))
 confirm = L.confirm
